@@ -552,7 +552,7 @@ func (proj *Project) loadModule(waiter *module, label *label.Label) (starlark.St
 		return m.wait(waiter)
 	}
 
-	m := &module{label: label, out: newLineWriter(label, proj.events)}
+	m := &module{label: label, out: newProjectLineWriter(label, proj)}
 	m.cond = sync.NewCond(&m.m)
 	proj.modules[label.String()] = m
 	proj.m.Unlock()
@@ -588,7 +588,7 @@ func (proj *Project) loadFunction(m *module, l *label.Label, dependencies, sourc
 		docs:     docs,
 		function: fn,
 		always:   always,
-		out:      newLineWriter(l, proj.events),
+		out:      newProjectLineWriter(l, proj),
 	}
 	proj.targets[rawlabel] = &runTarget{target: f}
 	proj.m.Unlock()
